@@ -2,7 +2,7 @@
 # tools/ingest_seeds.sh c05 : copy /tmp/mutout-c05/N into seeded/C05-mN, confirm demo + suite in a scratch worktree
 # (no check run), remove the agent's worktree and output directory.
 set -u
-id=$1; ID=$(echo "$id" | tr a-z A-Z); wave=${2:-}; tag=m; [ "$wave" = 2 ] && tag=n; [ "$wave" = 3 ] && tag=t; [ "$wave" = 4 ] && tag=u; [ "$wave" = 5 ] && tag=v; [ "$wave" = 6 ] && tag=w; [ "$wave" = 7 ] && tag=x
+id=$1; ID=$(echo "$id" | tr a-z A-Z); wave=${2:-}; tag=m; [ "$wave" = 2 ] && tag=n; [ "$wave" = 3 ] && tag=t; [ "$wave" = 4 ] && tag=u; [ "$wave" = 5 ] && tag=v; [ "$wave" = 6 ] && tag=w; [ "$wave" = 7 ] && tag=x; [ "$wave" = 8 ] && tag=y
 cd "$(dirname "$0")/.."
 for n in 1 2 3 4 5; do
   src=/tmp/mut${wave}out-$id/$n
